@@ -96,6 +96,13 @@ CHECKS["C09"] = dict(
     ref="DESIGN.md section 4 / C09",
 )
 
+# session 3 additions (rules C20.i/j, C18.h, C12.j, C09.d, C14.f)
+CHECKS["C20"]["text"] += " Session 3: the private-copy decision of diff() depends on the node-sequence length and id set of both inputs (C20.i) and caller matchings are re-mapped through per-side id tables (C20.j)."
+CHECKS["C18"]["text"] += " Session 3: no == / != on column mappings in schema.py, dict equality ignores column order (C18.h)."
+CHECKS["C12"]["text"] += " Session 3: whether dump() writes a per-node slot depends only on that slot's value, never on the class of the node (C12.j)."
+CHECKS["C09"]["text"] += " Session 3: same-name delegation inside copy-parameter functions states the copy flag (C09.d)."
+CHECKS["C14"]["text"] += " Session 3: merge_errors() keeps every entry of every collected exception (C14.f)."
+
 NOT_APPLICABLE = {
     "C02": "oracle is SQLite/DuckDB evaluation semantics (NULL ordering, division, || precedence); not present in the source, no structural clause implies row equality",
     "C03": "result-multiset equality of optimized vs original query over all databases; guards are semantic conditions, only checkable as frozen fragments (false-alarm prone)",
